@@ -25,6 +25,27 @@ func main() {
 		rk.ChildMain()
 		return
 	}
+	if len(os.Args) >= 3 && os.Args[2] == "referee" {
+		ref, ok := common.Referees[os.Args[1]]
+		if !ok {
+			die("no referee %s", os.Args[1])
+		}
+		fl := flag.NewFlagSet("lcv", flag.ExitOnError)
+		seed := fl.Uint64("seed", 1, "")
+		n := fl.Int("n", 10, "")
+		out := fl.String("out", "", "")
+		fl.Parse(os.Args[3:])
+		fh, err := os.Create(*out)
+		if err != nil {
+			die("%v", err)
+		}
+		ref(rng.New(*seed), *n, func(m map[string]interface{}) {
+			b, _ := json.Marshal(m)
+			fh.Write(append(b, '\n'))
+		})
+		fh.Close()
+		return
+	}
 	if len(os.Args) < 3 {
 		die("usage: lcv <prop> gen|replay ...")
 	}
